@@ -237,14 +237,19 @@ Record TShape (g : tgraph) : Prop := {
   s_nd_downs : forall i, alive g i -> NoDup (t_downs (tget g i));
   s_down : forall u d, alive g u -> In d (t_downs (tget g u)) -> alive g d /\ In u (t_ups (tget g d));
   s_up : forall u d, alive g d -> In u (t_ups (tget g d)) -> alive g u /\ In d (t_downs (tget g u));
+  s_trig : forall d t, alive g d -> tk (tget g d) = TCombineOn t -> alive g t;   (* emit_on holds its stream *)
 }.
 
 Definition keys (nd : tnode) : list nat := map fst (t_bufs nd).
 
 (* per-node state of the combining nodes is aligned with the current inputs *)
+Definition is_comb (k : tkind) : bool := match k with TCombine | TCombineOn _ => true | _ => false end.
 Definition ndata (nd : tnode) : Prop :=
-  (tk nd = TCombine -> length (t_last nd) = length (t_ups nd)) /\
+  (is_comb (tk nd) = true -> length (t_last nd) = length (t_ups nd)) /\
   (tk nd = TZip -> NoDup (keys nd) /\ forall u, In u (keys nd) <-> In u (t_ups nd)).
+Ltac nocomb :=
+  let H := fresh "HC" in
+  intros H; exfalso; simpl in H; match goal with K : tk _ = _ |- _ => rewrite K in H; discriminate H end.
 Definition nnw (nd : tnode) : Prop := tk nd = TZip -> zip_ready nd = false.
 
 Definition TData (g : tgraph) : Prop := forall i, alive g i -> ndata (tget g i).
@@ -304,8 +309,8 @@ Proof. intros F. unfold alive. rewrite (fr_alive _ _ _ F). tauto. Qed.
 
 Lemma TShape_frame g g' : frame g g' -> TShape g -> TShape g'.
 Proof.
-  intros F [A B C D E]. constructor; unfold alive in *; intros *;
-    rewrite ?(fr_alive _ _ _ F), ?(fr_ups _ _ _ F), ?(fr_downs _ _ _ F); eauto.
+  intros F [A B C D E T]. constructor; unfold alive in *; intros *;
+    rewrite ?(fr_alive _ _ _ F), ?(fr_ups _ _ _ F), ?(fr_downs _ _ _ F), ?(fr_tk _ _ _ F); eauto.
 Qed.
 
 (* a node update that keeps the shape and re-establishes the node-level data invariant *)
@@ -360,6 +365,13 @@ Definition estep (f : nat) (n : nat) (x : val) (acc : tgraph * list tdeliv) (d :
       let g1 := tset g d (with_last nd last') in
       match all_some_v last' with
       | Some vs => let '(g', l') := temit f g1 d (VTup vs) in (g', log ++ l')
+      | None => (g1, log)
+      end
+  | TCombineOn t =>
+      let last' := set_at (index_nat n (t_ups nd)) (Some x) (t_last nd) in
+      let g1 := tset g d (with_last nd last') in
+      match all_some_v last' with
+      | Some vs => if n =? t then let '(g', l') := temit f g1 d (VTup vs) in (g', log ++ l') else (g1, log)
       | None => (g1, log)
       end
   end.
@@ -471,7 +483,7 @@ Proof.
       apply (rec_glue f g n x d (VTup (zip_heads nd1)) (tset ga d (zip_pop nd1)) la g' l2); auto.
       apply epost_tset; auto.
       * unfold same_shape; simpl; auto 10.
-      * intros _. split; simpl; [fold nd; congruence|]. intros _. unfold keys. simpl.
+      * intros _. split; simpl; [fold nd; nocomb|]. intros _. unfold keys. simpl.
         change (fun kb : nat * list val => (fst kb, tl (snd kb))) with popf.
         rewrite keys_pop, Keq. auto.
       * intros _ _. apply zip_ready_false. right. exists n. split; [exact Hupa|].
@@ -481,7 +493,7 @@ Proof.
         rewrite app_length in C1. simpl in C1. lia.
     + inversion E; subst. apply no_rec_glue; auto. apply epost_tset; auto.
       * unfold same_shape; simpl; auto 10.
-      * intros _. split; simpl; [fold nd; congruence|]. intros _. unfold keys. simpl. rewrite Keq. auto.
+      * intros _. split; simpl; [fold nd; nocomb|]. intros _. unfold keys. simpl. rewrite Keq. auto.
       * intros _ _. apply andb_false_iff in C. destruct C as [C|C]; auto.
         apply Nat.eqb_neq in C.
         assert (Hold : buf_get n (t_bufs nd) <> []).
@@ -497,7 +509,7 @@ Proof.
     { apply epost_tset; auto.
       - unfold same_shape; simpl; auto 10.
       - intros _. split; simpl; [|fold nd; congruence]. intros _. unfold last'. rewrite set_at_length.
-        destruct (Da d Ada) as (Hc & _). apply Hc; auto.
+        destruct (Da d Ada) as (Hc & _). apply Hc; auto. fold nd. rewrite K. reflexivity.
       - intros _ K'. simpl in K'. fold nd in K'. congruence. }
     destruct (all_some_v last') as [vs|].
     + destruct (temit f (tset ga d (with_last nd last')) d (VTup vs)) as [g2 l2] eqn:E2.
@@ -505,6 +517,21 @@ Proof.
       apply (rec_glue f g n x d (VTup vs) (tset ga d (with_last nd last')) la g' l2); auto.
     + inversion E; subst. apply no_rec_glue; auto.
   - inversion E; subst. apply no_rec_glue; auto.
+  - (* combine_latest with an explicit emit_on *)
+    set (nd := tget ga d) in *.
+    set (last' := set_at (index_nat n (t_ups nd)) (Some x) (t_last nd)) in *.
+    assert (P1 : epost g n (tset ga d (with_last nd last')) la).
+    { apply epost_tset; auto.
+      - unfold same_shape; simpl; auto 10.
+      - intros _. split; simpl; [|fold nd; congruence]. intros _. unfold last'. rewrite set_at_length.
+        destruct (Da d Ada) as (Hc & _). apply Hc; auto. fold nd. rewrite K. reflexivity.
+      - intros _ K'. simpl in K'. fold nd in K'. congruence. }
+    destruct (all_some_v last') as [vs|]; [destruct (n =? trig)|].
+    + destruct (temit f (tset ga d (with_last nd last')) d (VTup vs)) as [g2 l2] eqn:E2.
+      inversion E; subst.
+      apply (rec_glue f g n x d (VTup vs) (tset ga d (with_last nd last')) la g' l2); auto.
+    + inversion E; subst. apply no_rec_glue; auto.
+    + inversion E; subst. apply no_rec_glue; auto.
 Qed.
 
 Lemma efold_spec f g n x :
@@ -588,9 +615,10 @@ Lemma TShape_add g g' (R : nat -> nat -> Prop) :
   (forall a b, R a b -> alive g' a /\ alive g' b /\ a < b) ->
   (forall i, alive g' i -> NoDup (t_ups (tget g' i))) ->
   (forall i, alive g' i -> NoDup (t_downs (tget g' i))) ->
+  (forall d t, alive g' d -> tk (tget g' d) = TCombineOn t -> alive g' t) ->
   TShape g'.
 Proof.
-  intros [A B C D E] Hd Hu Hal HR N1 N2. constructor; auto.
+  intros [A B C D E T] Hd Hu Hal HR N1 N2 HT. constructor; auto.
   - intros d u Ad Hi. apply Hu in Hi; auto. destruct Hi as [[Ad0 Hi]|Hi]; eauto. apply HR in Hi. tauto.
   - intros u d Au Hi. apply Hd in Hi; auto. destruct Hi as [[Au0 Hi]|Hi].
     + destruct (D _ _ Au0 Hi) as (Ad0 & Hi'). split; auto. apply Hu; auto.
@@ -608,11 +636,12 @@ Lemma TShape_del g g' u d :
   (forall a b, alive g b -> (In a (t_ups (tget g' b)) <-> In a (t_ups (tget g b)) /\ ~ (a = u /\ b = d))) ->
   (forall i, alive g i -> NoDup (t_ups (tget g' i))) ->
   (forall i, alive g i -> NoDup (t_downs (tget g' i))) ->
+  (forall i, tk (tget g' i) = tk (tget g i)) ->
   TShape g'.
 Proof.
-  intros [A B C D E] Hal Hd Hu N1 N2.
+  intros [A B C D E T] Hal Hd Hu N1 N2 HK.
   assert (AL : forall i, alive g' i <-> alive g i) by (intros i; unfold alive; rewrite Hal; tauto).
-  constructor.
+  constructor; [| | | | |intros d0 t0 Ad Kd; apply AL; apply AL in Ad; rewrite HK in Kd; eauto].
   - intros d0 u0 Ad Hi. apply AL in Ad. apply Hu in Hi; auto. destruct Hi; eauto.
   - intros i Ai. apply AL in Ai. auto.
   - intros i Ai. apply AL in Ai. auto.
@@ -654,6 +683,7 @@ Proof.
       * apply buf_get_set_eq.
   - split; [split|]; try discriminate. intros _. rewrite !app_length. simpl. rewrite Hc; auto.
   - repeat split; intros; discriminate.
+  - split; [split|]; try discriminate. intros _. rewrite !app_length. simpl. rewrite Hc; auto.
 Qed.
 
 Lemma remove_upstream_data nd u : In u (t_ups nd) -> NoDup (t_ups nd) -> ndata nd -> ndata (remove_upstream nd u).
@@ -670,6 +700,10 @@ Proof.
     pose proof (index_nat_lt u (t_ups nd) Hn).
     pose proof (remove_at_length (index_nat u (t_ups nd)) (t_last nd)). lia.
   - split; intros; discriminate.
+  - split; [|discriminate]. intros _. specialize (Hc eq_refl).
+    pose proof (remove_first_length u (t_ups nd) Hn).
+    pose proof (index_nat_lt u (t_ups nd) Hn).
+    pose proof (remove_at_length (index_nat u (t_ups nd)) (t_last nd)). lia.
 Qed.
 
 Definition same_flags (a b : tnode) : Prop :=
@@ -727,6 +761,8 @@ Proof.
       * rewrite S2. apply (s_nd_downs _ Sh); auto.
       * simpl. apply NoDup_app_single; auto. apply (s_nd_downs _ Sh); auto.
       * apply (s_nd_downs _ Sh); auto.
+    + intros d0 t0 Ad0 Kd0. apply AL. apply AL in Ad0. destruct (FL d0) as (Kq & _). rewrite Kq in Kd0.
+      apply (s_trig _ Sh d0 t0); auto.
   - intros i Ai. apply AL in Ai. rewrite G. destruct (Nat.eq_dec i d) as [->|]; [|destruct (Nat.eq_dec i u) as [->|]].
     + apply add_upstream_data; auto. apply (s_nd_ups _ Sh); auto.
     + eapply ndata_ext; [| | | |apply (Da u Ai)]; auto.
@@ -790,6 +826,7 @@ Proof.
       * rewrite S2. apply (s_nd_downs _ Sh); auto.
       * simpl. apply remove_first_NoDup. apply (s_nd_downs _ Sh); auto.
       * apply (s_nd_downs _ Sh); auto.
+    + intros i. apply FL.
   - intros i Ai. apply AL in Ai. rewrite G. destruct (Nat.eq_dec i d) as [->|]; [|destruct (Nat.eq_dec i u) as [->|]].
     + apply remove_upstream_data; auto. apply (s_nd_ups _ Sh); auto.
     + eapply ndata_ext; [| | | |apply (Da u Ai)]; auto.
@@ -859,14 +896,15 @@ Lemma inv_ext g g' :
              t_bufs (tget g' i) = t_bufs (tget g i) /\ t_last (tget g' i) = t_last (tget g i)) ->
   TInv0 g -> TInv0 g'.
 Proof.
-  intros H [[A B C D E] Da Nw].
+  intros H [[A B C D E T] Da Nw].
   assert (AL : forall i, alive g' i <-> alive g i).
   { intros i. unfold alive. destruct (H i) as (-> & _). tauto. }
   constructor.
   - assert (Ha : forall i, t_alive (tget g' i) = t_alive (tget g i)) by (intros i; apply H).
     assert (Hu : forall i, t_ups (tget g' i) = t_ups (tget g i)) by (intros i; apply H).
     assert (Hd : forall i, t_downs (tget g' i) = t_downs (tget g i)) by (intros i; apply H).
-    constructor; unfold alive in *; intros *; rewrite ?Ha, ?Hu, ?Hd; eauto.
+    assert (Hk : forall i, tk (tget g' i) = tk (tget g i)) by (intros i; apply H).
+    constructor; unfold alive in *; intros *; rewrite ?Ha, ?Hu, ?Hd, ?Hk; eauto.
   - intros i Ai. apply AL in Ai. destruct (H i) as (_ & ? & ? & _ & ? & ?).
     eapply ndata_ext; [| | | |apply (Da i Ai)]; auto.
   - intros i Ai. apply AL in Ai. destruct (H i) as (_ & ? & ? & _ & ? & ?).
@@ -994,7 +1032,7 @@ Qed.
 Lemma new_node_data k ups : NoDup ups -> (k = TZip -> ups <> []) -> ndata (new_node k ups) /\ nnw (new_node k ups).
 Proof.
   intros Nd Ne. unfold ndata, nnw, keys. simpl. split; [split|].
-  - intros ->. apply map_length.
+  - destruct k; simpl; try discriminate; intros _; apply map_length.
   - intros ->. rewrite map_map. simpl. rewrite map_id. split; auto. tauto.
   - intros ->. apply zip_ready_false. simpl. destruct ups as [|u l]; [left; auto|].
     right. exists u. split; [left; auto|]. apply (buf_get_new u (u :: l)).
@@ -1002,9 +1040,10 @@ Qed.
 
 Lemma new_inv g k ups :
   TInv0 g -> NoDup ups -> (forall u, In u ups -> alive g u) -> (k = TZip -> ups <> []) ->
+  (forall t, k = TCombineOn t -> In t ups) ->
   TInv0 (new_g g k ups).
 Proof.
-  intros [Sh Da Nw] Nd Hu Ne.
+  intros [Sh Da Nw] Nd Hu Ne Ht.
   destruct (new_g_spec g k ups Sh Nd Hu) as (L & Gn & Gu & Go).
   set (g' := new_g g k ups) in *.
   assert (Dead : ~ alive g (length g)) by (intros H; apply alive_lt in H; lia).
@@ -1041,6 +1080,10 @@ Proof.
         -- rewrite Gu by auto. simpl. apply NoDup_app_single; [apply (s_nd_downs _ Sh); auto|].
            intros H. apply (s_down _ Sh _ _ Ai) in H. destruct H as (H & _). apply alive_lt in H. lia.
         -- rewrite Go by auto. apply (s_nd_downs _ Sh); auto.
+    + intros d0 t0 Ad0 Kd0. apply AL. destruct (Nat.eq_dec d0 (length g)) as [->|N].
+      * rewrite Gn in Kd0. simpl in Kd0. left. apply Hu. apply Ht. auto.
+      * apply AL in Ad0. destruct Ad0 as [Ad0|]; [|tauto]. left. apply (s_trig _ Sh d0 t0); auto.
+        destruct (in_dec Nat.eq_dec d0 ups); [rewrite Gu in Kd0|rewrite Go in Kd0]; auto.
   - intros i Ai. destruct (Nat.eq_dec i (length g)) as [->|N].
     + rewrite Gn. apply new_node_data; auto.
     + apply AL in Ai. destruct Ai as [Ai|]; [|tauto]. destruct (in_dec Nat.eq_dec i ups).
@@ -1082,12 +1125,22 @@ Proof.
 Qed.
 
 Definition more_of (g : tgraph) (K : list nat) : list nat :=
-  flat_map (fun i => filter (fun u => negb (mem u K)) (t_ups (tget g i))) K.
+  flat_map (fun i => filter (fun u => negb (mem u K)) (t_refs (tget g i))) K.
+
+Lemma refs_ups n u : In u (t_ups n) -> In u (t_refs n).
+Proof. unfold t_refs. rewrite in_app_iff. auto. Qed.
+
+Lemma refs_alive g i u : TShape g -> alive g i -> In u (t_refs (tget g i)) -> alive g u.
+Proof.
+  intros Sh Ai H. unfold t_refs in H. apply in_app_iff in H. destruct H as [H|H].
+  - apply (s_up _ Sh _ _ Ai H).
+  - destruct (tk (tget g i)) eqn:K; simpl in H; try tauto. destruct H as [<-|[]]. apply (s_trig _ Sh i trig); auto.
+Qed.
 
 Lemma keep_S f g K : keep (S f) g K = match more_of g K with [] => K | _ => keep f g (K ++ more_of g K) end.
 Proof. reflexivity. Qed.
 
-Lemma more_of_In g K u : In u (more_of g K) <-> exists i, In i K /\ In u (t_ups (tget g i)) /\ ~ In u K.
+Lemma more_of_In g K u : In u (more_of g K) <-> exists i, In i K /\ In u (t_refs (tget g i)) /\ ~ In u K.
 Proof.
   unfold more_of. rewrite in_flat_map. split.
   - intros (i & Hi & H). apply filter_In in H. destruct H as [H1 H2]. exists i. split; auto. split; auto.
@@ -1103,7 +1156,7 @@ Proof.
 Qed.
 
 Lemma keep_pres (P : nat -> Prop) g :
-  (forall i u, P i -> In u (t_ups (tget g i)) -> P u) ->
+  (forall i u, P i -> In u (t_refs (tget g i)) -> P u) ->
   forall f K, (forall i, In i K -> P i) -> forall i, In i (keep f g K) -> P i.
 Proof.
   intros HP. induction f as [|f IH]; intros K HK i Hi; auto. rewrite keep_S in Hi.
@@ -1113,7 +1166,7 @@ Proof.
 Qed.
 
 Lemma keep_from g : forall f K i, In i (keep f g K) ->
-  In i K \/ exists j, In j (keep f g K) /\ In i (t_ups (tget g j)).
+  In i K \/ exists j, In j (keep f g K) /\ In i (t_refs (tget g j)).
 Proof.
   induction f as [|f IH]; intros K i Hi; auto. rewrite keep_S in *.
   destruct (more_of g K) eqn:E; auto. rewrite <- E in *.
@@ -1124,7 +1177,7 @@ Proof.
 Qed.
 
 Definition closed (g : tgraph) (K : list nat) : Prop :=
-  forall i u, In i K -> In u (t_ups (tget g i)) -> In u K.
+  forall i u, In i K -> In u (t_refs (tget g i)) -> In u K.
 
 Lemma more_nil_closed g K : more_of g K = [] -> closed g K.
 Proof.
@@ -1166,10 +1219,10 @@ Proof.
   - apply more_nil_closed; auto.
   - rewrite <- E. apply IH.
     + intros i Hi. apply in_app_iff in Hi. destruct Hi as [Hi|Hi]; auto.
-      apply more_of_In in Hi. destruct Hi as (j & Hj & Hu & _). apply (s_up _ Sh _ _ (HK j Hj) Hu).
+      apply more_of_In in Hi. destruct Hi as (j & Hj & Hu & _). apply (refs_alive _ _ _ Sh (HK j Hj) Hu).
     + assert (Hh : In h (more_of g K)) by (rewrite E; left; auto).
       assert (Hh' := Hh). apply more_of_In in Hh'. destruct Hh' as (j & Hj & Hu & Hn).
-      assert (Ah : alive g h) by (apply (s_up _ Sh _ _ (HK j Hj) Hu)).
+      assert (Ah : alive g h) by (apply (refs_alive _ _ _ Sh (HK j Hj) Hu)).
       assert (miss (length g) (K ++ more_of g K) < miss (length g) K); [|lia].
       unfold miss. apply filter_length_lt with (x := h).
       * intros x _ Hx. apply negb_true_iff in Hx. apply negb_true_iff.
@@ -1191,7 +1244,7 @@ Qed.
 Lemma kept_alive g : TShape g -> forall i, In i (kept g) -> alive g i.
 Proof.
   intros Sh. unfold kept. apply keep_pres.
-  - intros i u Ai Hu. apply (s_up _ Sh _ _ Ai Hu).
+  - intros i u Ai Hu. apply (refs_alive _ _ _ Sh Ai Hu).
   - intros i Hi. apply roots_In in Hi. apply is_root_alive; auto.
 Qed.
 
@@ -1247,10 +1300,12 @@ Proof.
       apply mem_spec in E2. split; [apply AL; auto|]. rewrite collect_node by auto. simpl.
       apply (s_down _ Sh u d); auto.
     + intros u d Ad Hu. apply AL in Ad. rewrite collect_node in Hu by auto. simpl in Hu.
-      assert (Ku : In u (kept g)) by (eapply Cl; eauto).
+      assert (Ku : In u (kept g)) by (eapply Cl; eauto using refs_ups).
       split; [apply AL; auto|]. rewrite collect_node by auto. simpl. apply filter_In. split.
       * apply (s_up _ Sh u d); auto.
       * apply andb_true_iff. split; [apply Ka; auto|apply mem_spec; auto].
+    + intros d t Ad Kd. apply AL in Ad. apply AL. rewrite collect_node in Kd by auto. simpl in Kd.
+      apply (Cl d t Ad). unfold t_refs. rewrite Kd. apply in_app_iff. right. left. auto.
   - intros i Ai. apply AL in Ai. rewrite collect_node by auto.
     eapply ndata_ext; [| | | |apply (Da i (Ka i Ai))]; auto.
   - intros i Ai. apply AL in Ai. rewrite collect_node by auto.
@@ -1419,6 +1474,17 @@ Definition rstep (f n : nat) (x : val) (acc : rstate) (d : nat) : rstate :=
         | None => (g1, p, false, log)
         end
       else (g, p, true, log)
+  | TCombineOn t =>
+      if mem n (t_ups nd) then
+        let last' := set_at (index_nat n (t_ups nd)) (Some x) (t_last nd) in
+        let g1 := tset g d (with_last nd last') in
+        match all_some_v last' with
+        | Some vs =>
+            if n =? t then let '(g', p', r', l') := rdeliver f g1 p d (VTup vs) in (g', p', r', log ++ l')
+            else (g1, p, false, log)
+        | None => (g1, p, false, log)
+        end
+      else (g, p, true, log)
   end.
 
 Lemma rdeliver_S f g p n x :
@@ -1498,7 +1564,7 @@ Proof.
       assert (SS : same_shape (tget ga d) (zip_pop nd1)) by (unfold same_shape; simpl; auto 10).
       assert (I1 : TInv0 (tset ga d (zip_pop nd1))).
       { apply TInv0_tset; auto.
-        - intros Ad. destruct (Hk Ad) as (Nk & Hk'). split; simpl; [fold nd; congruence|]. intros _. unfold keys. simpl.
+        - intros Ad. destruct (Hk Ad) as (Nk & Hk'). split; simpl; [fold nd; nocomb|]. intros _. unfold keys. simpl.
           change (fun kb : nat * list val => (fst kb, tl (snd kb))) with popf.
           rewrite keys_pop, Keq. auto.
         - intros Ad _. destruct (Hk Ad) as (Nk & Hk'). apply zip_ready_false. right. exists n. split; [apply Hk'; exact M|].
@@ -1514,7 +1580,7 @@ Proof.
       assert (F1 : frame ga (tset ga d nd1)) by (apply frame_tset; auto).
       split; [|split; [eapply pend_ok_frame; eauto|apply ev_frame; auto]].
       apply TInv0_tset; auto.
-      * intros Ad. destruct (Hk Ad) as (Nk & Hk'). split; simpl; [fold nd; congruence|]. intros _. unfold keys. simpl.
+      * intros Ad. destruct (Hk Ad) as (Nk & Hk'). split; simpl; [fold nd; nocomb|]. intros _. unfold keys. simpl.
         rewrite Keq. auto.
       * intros Ad _. destruct (Hk Ad) as (Nk & Hk'). apply andb_false_iff in C. destruct C as [C|C]; auto.
         apply Nat.eqb_neq in C.
@@ -1533,7 +1599,7 @@ Proof.
     assert (I1 : TInv0 (tset ga d (with_last nd last'))).
     { apply TInv0_tset; auto.
       - intros Ad. split; simpl; [|fold nd; congruence]. intros _. unfold last'. rewrite set_at_length.
-        destruct (i_data _ I d Ad) as (Hc & _). apply Hc; auto.
+        destruct (i_data _ I d Ad) as (Hc & _). apply Hc; auto. fold nd. rewrite K. reflexivity.
       - intros _ K'. simpl in K'. fold nd in K'. congruence. }
     destruct (all_some_v last') as [vs|].
     + destruct (rdeliver f (tset ga d (with_last nd last')) pa d (VTup vs)) as [[[g2 p2] r2] l2] eqn:E2.
@@ -1549,6 +1615,24 @@ Proof.
     destruct (edit0_ok ga e I P) as (I2 & _). rewrite E2 in I2. cbn [fst] in I2.
     split; auto. split; [exact Logic.I|].
     eapply ev_edit; eauto using frame_refl. rewrite E2. apply frame_refl.
+  - (* combine_latest with an explicit emit_on *)
+    set (nd := tget ga d) in *.
+    destruct (mem n (t_ups nd)) eqn:M; [|inversion E; subst; auto using evolve_refl].
+    set (last' := set_at (index_nat n (t_ups nd)) (Some x) (t_last nd)) in *.
+    assert (SS : same_shape (tget ga d) (with_last nd last')) by (unfold same_shape; simpl; auto 10).
+    assert (F1 : frame ga (tset ga d (with_last nd last'))) by (apply frame_tset; auto).
+    assert (I1 : TInv0 (tset ga d (with_last nd last'))).
+    { apply TInv0_tset; auto.
+      - intros Ad. split; simpl; [|fold nd; congruence]. intros _. unfold last'. rewrite set_at_length.
+        destruct (i_data _ I d Ad) as (Hc & _). apply Hc; auto. fold nd. rewrite K. reflexivity.
+      - intros _ K'. simpl in K'. fold nd in K'. congruence. }
+    destruct (all_some_v last') as [vs|]; [destruct (n =? trig)|].
+    + destruct (rdeliver f (tset ga d (with_last nd last')) pa d (VTup vs)) as [[[g2 p2] r2] l2] eqn:E2.
+      inversion E; subst.
+      destruct (IH _ _ _ _ _ _ _ _ I1 (pend_ok_frame _ _ _ F1 P) E2) as (I2 & P2 & Ev2).
+      split; auto. split; auto. eapply evolve_frame_l; eauto.
+    + inversion E; subst. split; auto. split; [eapply pend_ok_frame; eauto|apply ev_frame; auto].
+    + inversion E; subst. split; auto. split; [eapply pend_ok_frame; eauto|apply ev_frame; auto].
 Qed.
 
 Lemma rfold_spec f n x : rspec f ->
@@ -1601,7 +1685,12 @@ Definition wf_op (g : tgraph) (o : top) : Prop :=
   match o with
   | ONew k ups =>
       NoDup ups /\ (forall u, In u ups -> held_node g u /\ sinkb (tk (tget g u)) = false) /\
-      match k with TPipe => True | TSink | TRSink => length ups = 1 | TZip | TCombine => ups <> [] end
+      match k with
+      | TPipe => True
+      | TSink | TRSink => length ups = 1
+      | TZip | TCombine => ups <> []
+      | TCombineOn t => match ups with u :: _ => u = t | [] => False end   (* emit_on = the first input *)
+      end
   | OEmit n _ => held_node g n
   | OConnect u d => wf_edit g (EConnect u d)
   | ODisconnect u d => wf_edit g (EDisconnect u d)
@@ -1697,7 +1786,8 @@ Proof.
     rewrite tstep0_new. cbn [fst]. destruct W as (Nd & Hu & Hk).
     assert (Hal : forall u, In u ups -> alive g u) by (intros u H; apply Hu in H; apply H).
     split.
-    + apply new_inv; auto. intros ->. auto.
+    + apply new_inv; auto; [intros ->; auto|].
+      intros t ->. destruct ups as [|u0 ups0]; [tauto|]. subst. left; auto.
     + destruct (new_g_spec g k ups (i_shape _ I) Nd Hal) as (L & Gn & Gu & Go).
       intros i Ai. pose proof (alive_lt _ _ Ai). unfold alive in Ai.
       destruct (in_dec Nat.eq_dec i ups).
@@ -1775,11 +1865,11 @@ Proof.
 Qed.
 
 Lemma more_of_ext g1 g K :
-  (forall i, In i K -> t_ups (tget g1 i) = t_ups (tget g i)) -> more_of g1 K = more_of g K.
+  (forall i, In i K -> t_refs (tget g1 i) = t_refs (tget g i)) -> more_of g1 K = more_of g K.
 Proof. intros H. unfold more_of. apply flat_map_ext_in. intros i Hi. rewrite H; auto. Qed.
 
 Lemma keep_ext g1 g : forall f K,
-  (forall i, In i (keep f g K) -> t_ups (tget g1 i) = t_ups (tget g i)) -> keep f g1 K = keep f g K.
+  (forall i, In i (keep f g K) -> t_refs (tget g1 i) = t_refs (tget g i)) -> keep f g1 K = keep f g K.
 Proof.
   induction f as [|f IH]; intros K H; auto.
   assert (E : more_of g1 K = more_of g K).
@@ -1920,22 +2010,33 @@ Proof.
   intros u H. apply (CL s u H A').
 Qed.
 
+Lemma tk_collect g i : tk (tget (collect g) i) = tk (tget g i).
+Proof. rewrite tget_collect. unfold cnode. destruct (t_alive (tget g i) && mem i (kept g)); reflexivity. Qed.
+
+(* (a stream named by the emit_on of a live combine_latest node is referenced by that node) *)
 Lemma collect_dead g n : TShape g ->
   t_held (tget g n) = false -> t_reg (tget g n) = false -> t_downs (tget g n) = [] ->
+  (forall j t, alive g j -> tk (tget g j) = TCombineOn t -> t <> n) ->
   t_alive (tget (collect g) n) = false.
 Proof.
-  intros Sh H1 H2 H3. destruct (t_alive (tget (collect g) n)) eqn:E; auto. exfalso.
+  intros Sh H1 H2 H3 H4. destruct (t_alive (tget (collect g) n)) eqn:E; auto. exfalso.
   apply collect_alive in E; auto. apply keep_from in E. destruct E as [E|(j & Hj & Hu)].
   - apply roots_In in E. unfold is_root in E. rewrite H1, H2, andb_false_r in E. discriminate.
-  - apply (s_up _ Sh n j (kept_alive g Sh j Hj)) in Hu. rewrite H3 in Hu. destruct Hu as (_ & []).
+  - pose proof (kept_alive g Sh j Hj) as Aj. unfold t_refs in Hu. apply in_app_iff in Hu. destruct Hu as [Hu|Hu].
+    + apply (s_up _ Sh n j Aj) in Hu. rewrite H3 in Hu. destruct Hu as (_ & []).
+    + destruct (tk (tget g j)) eqn:K; simpl in Hu; try tauto. destruct Hu as [->|[]]. apply (H4 j n Aj K). auto.
 Qed.
 
 Theorem destroyed_and_dropped_dies g n :
   TInv0 g -> wf_op g (ODestroy n) -> t_downs (tget g n) = [] ->
+  (forall j t, tk (tget g j) = TCombineOn t -> t <> n) ->
   wf_op (step_g g (ODestroy n)) (ODrop n) /\
   t_alive (tget (step_g (step_g g (ODestroy n)) (ODrop n)) n) = false.
 Proof.
-  intros I W Hd. pose proof W as ((Ln & An & Hn) & _).
+  intros I W Hd Htr. pose proof W as ((Ln & An & Hn) & _).
+  assert (TK1 : forall j, tk (tget (step_g g (ODestroy n)) j) = tk (tget g j)).
+  { intros j. rewrite step_g_eq, tk_collect. destruct (edit0_ok g (EDestroy n) I W) as (_ & _ & H).
+    change (tstep0 g (ODestroy n)) with (tedit0 g (EDestroy n)). apply H. }
   destruct (step0_ok g _ I W) as (I0 & Fl). rewrite tstep0_destroy in I0, Fl. cbn [fst] in I0, Fl.
   destruct I as [Sh Da Nw].
   destruct (destroy_fold_spec n _ g Sh Da An eq_refl) as (_ & _ & (L1 & _) & _ & _ & Dn1).
@@ -1965,15 +2066,27 @@ Proof.
   rewrite step_g_eq, tstep0_drop. cbn [fst]. 
   assert (N2 : tget (drop_g g1 n) n = with_flags (tget g1 n) false (t_reg (tget g1 n)) (t_alive (tget g1 n))).
   { unfold drop_g. rewrite tget_tset_eq; auto. lia. }
-  apply collect_dead; [apply I2| | |]; rewrite N2, G1; simpl; auto.
-  rewrite Nd. reflexivity.
+  apply collect_dead; [apply I2| | | |]; try (rewrite N2, G1; simpl; auto).
+  - rewrite Nd. reflexivity.
+  - intros j t _ Kj. apply (Htr j t). rewrite <- TK1. fold g1.
+    destruct (tget_tset_flags g1 n false (t_reg (tget g1 n)) j) as (_ & Hk & _). unfold drop_g in Kj.
+    rewrite <- Hk. exact Kj.
 Qed.
 
 (* 5 *)
 Theorem combine_aligned g : reachable g ->
   forall i, t_alive (tget g i) = true -> tk (tget g i) = TCombine ->
   length (t_last (tget g i)) = length (t_ups (tget g i)).
-Proof. intros R i Ai K. apply (i_data _ (reachable_inv g R) i Ai); auto. Qed.
+Proof. intros R i Ai K. apply (i_data _ (reachable_inv g R) i Ai); auto. rewrite K. reflexivity. Qed.
+
+Theorem combine_on_aligned g : reachable g ->
+  forall i t, t_alive (tget g i) = true -> tk (tget g i) = TCombineOn t ->
+  length (t_last (tget g i)) = length (t_ups (tget g i)) /\ t_alive (tget g t) = true.
+Proof.
+  intros R i t Ai K. pose proof (reachable_inv g R) as I. split.
+  - apply (i_data _ I i Ai); auto. rewrite K. reflexivity.
+  - apply (s_trig _ (i_shape _ I) i t Ai K).
+Qed.
 
 Theorem zip_keys g : reachable g ->
   forall i, t_alive (tget g i) = true -> tk (tget g i) = TZip ->
@@ -2044,7 +2157,8 @@ Definition wf_opb (g : tgraph) (o : top) : bool :=
       match k with
       | TPipe => true
       | TSink | TRSink => length ups =? 1
-      | _ => negb (match ups with [] => true | _ => false end)
+      | TZip | TCombine => negb (match ups with [] => true | _ => false end)
+      | TCombineOn t => match ups with u :: _ => u =? t | [] => false end
       end
   | OEmit n _ => heldb g n
   | OConnect u d => wf_editb g (EConnect u d)
@@ -2068,6 +2182,7 @@ Proof.
       * destruct ups; [discriminate|congruence].
       * destruct ups; [discriminate|congruence].
       * apply Nat.eqb_eq; auto.
+      * destruct ups; [discriminate|apply Nat.eqb_eq; auto].
   - apply heldb_sound; auto.
   - apply heldb_sound; auto.
   - do 4 (apply andb_true_iff in H; destruct H as [H ?]).
@@ -2173,7 +2288,7 @@ Proof.
   { unfold roots. rewrite <- (proj1 F). apply filter_ext. intros j. unfold is_root.
     rewrite (fr_alive _ _ _ F), (fr_held _ _ _ F), (fr_reg _ _ _ F). reflexivity. }
   assert (Ek : kept g1 = kept g).
-  { unfold kept. rewrite <- (proj1 F), Er. apply keep_ext. intros j _. apply (fr_ups _ _ _ F). }
+  { unfold kept. rewrite <- (proj1 F), Er. apply keep_ext. intros j _. unfold t_refs. rewrite (fr_ups _ _ _ F), (fr_tk _ _ _ F). reflexivity. }
   assert (H1 : alive (collect g1) i <-> alive g i).
   { rewrite (collect_alive g1 i Sh1), Ek, <- (collect_alive g i Sh), (reachable_collected g R). tauto. }
   unfold alive in H1. destruct (t_alive (tget (collect g1) i)), (t_alive (tget g i)); auto.
